@@ -5,7 +5,7 @@
    [abs s] is the lexical environment a Model state stands for (Proofs/ContextProofs.v). *)
 From Coq Require Import List NArith ZArith Bool.
 Import ListNotations.
-From Verif Require Import Val Tokenizer Scope Context ContextProofs.
+From Verif Require Import Val Tokenizer TokenizerProofs Scope Context ContextProofs ContextRefine.
 Local Open Scope N_scope.
 
 (* M1: name lookup (ContextItem.__getitem__ chained through .parent) yields the innermost live definition:
@@ -192,3 +192,149 @@ Example C04_global_prefix_was_ignored :
   lookup (run [Push None; AddGlobal 0 (VDef 1); Pop None] init_state) 0 = Some (VDef 1) /\
   get_let (run [Push None; GLetTok 0 120; Pop None] init_state) 0 = Some 120.
 Proof. vm_compute. repeat split. Qed.
+
+(* ---- one proved core for grouped category tables, shared with C01 (Model/Tokenizer.v apply_gops / bal) ----
+   [tabs s] = the tables of the frames, top first; [curt s] its head (the table in force), [saved s] its tail.
+   [gtrace h s] = the history as C01's grouped-table operations: a push enters a group, a pop leaves as many groups as it removes
+   frames (several for the pop-through of pop(obj) / pop(), none at the global level), \catcode assigns, nothing else counts. *)
+
+(* R1: for EVERY history without setVerbatimCatcodes / document-level pushes / invalid codes, from every well-formed state, and
+   whatever follows: C01's grouped table run on the trace computes the table Context has in force on its heap of shared tables *)
+Theorem C04_table_refines_gops :
+  forall (h : list op) (s : state) (rest : list (N * N)),
+    wf s -> forallb gop_ok h = true ->
+    apply_gops (saved s) (curt s) (gtrace h s ++ rest) = apply_gops (saved (run h s)) (curt (run h s)) rest.
+Proof. exact table_refines_gops. Qed.
+Print Assumptions C04_table_refines_gops.
+
+Theorem C04_which_is_gops :
+  forall (h : list op) (s : state) (c : N),
+    wf s -> forallb gop_ok h = true ->
+    which (run h s) c = which_code (apply_gops (saved s) (curt s) (gtrace h s)) c.
+Proof. exact which_is_gops. Qed.
+
+(* R2: on the brace fragment (anonymous groups only) the trace is the history read off syntactically *)
+Theorem C04_table_refines_gops_braces :
+  forall (h : list op) (s : state) (rest : list (N * N)),
+    wf s -> all_anon s -> forallb anon_ok h = true ->
+    apply_gops (saved s) (curt s) (gops_of h ++ rest) = apply_gops (saved (run h s)) (curt (run h s)) rest.
+Proof. exact table_refines_gops_braces. Qed.
+
+(* R3: hence C01_group_restores_table (the theorem about apply_gops) gives the restoration of the category table after { b }
+   in the Model of Context; and balanced histories (Spec/Scope.v) of the fragment have balanced traces (Model/Tokenizer.v bal) *)
+Theorem C04_group_restores_table_via_C01 :
+  forall (s : state) (b : list op),
+    wf s -> all_anon s -> forallb anon_ok b = true -> bal 0 (gops_of b) = true ->
+    curt (run (Push None :: b ++ [Pop None]) s) = curt s /\
+    forall c, which (run (Push None :: b ++ [Pop None]) s) c = which s c.
+Proof. exact group_restores_table_via_C01. Qed.
+Print Assumptions C04_group_restores_table_via_C01.
+
+Theorem C04_balanced_braces_bal :
+  forall (h : list op), Balanced h -> forallb anon_ok h = true -> bal 0 (gops_of h) = true.
+Proof. exact balanced_braces_bal. Qed.
+
+Example C04_refinement_nonvacuous :
+  (* an environment closed over an unclosed brace: the pop removes two frames, the trace has two leaves *)
+  let h := [Push None; Catcode 64 11; Push (Some envB); Catcode 37 12; Push None; Catcode 64 13; AddLocal 0 (VDef 1); Pop (Some envE)] in
+  forallb gop_ok h = true /\
+  gtrace h init_state = [(0, 16); (64, 11); (0, 16); (37, 12); (0, 16); (64, 13); (0, 17); (0, 17)] /\
+  which (run h init_state) 64 = 11 /\ which (run h init_state) 37 = 14 /\
+  (* the brace fragment *)
+  let b := [Catcode 64 11; Push None; Catcode 37 12; Getitem 3; Pop None; LetTok 1 120] in
+  forallb anon_ok b = true /\ all_anon init_state /\ bal 0 (gops_of b) = true /\ Balanced b /\
+  which (run (Push None :: b) init_state) 64 = 11.
+Proof.
+  cbv zeta. split; [reflexivity|]. split; [vm_compute; reflexivity|]. split; [vm_compute; reflexivity|]. split; [vm_compute; reflexivity|].
+  split; [reflexivity|]. split; [constructor|]. split; [reflexivity|]. split; [|vm_compute; reflexivity].
+  apply (Bal_simple Strict (Catcode 64 11)); [reflexivity|].
+  apply (Bal_group Strict [Catcode 37 12; Getitem 3] [LetTok 1 120]).
+  - repeat (apply Bal_simple; [reflexivity|]). apply Bal_nil.
+  - apply Bal_simple; [reflexivity|]. apply Bal_nil.
+Qed.
+
+(* ---- \begin{x} ... \end{x} of ANY name is a group (Model: begin_env / end_env = begin.invoke / end.invoke + the invoke of the
+   class: Environment.invoke, the MODE_BEGIN / MODE_END branches of Macro.invoke for Command classes and unknown names,
+   NewCommand.invoke for \newenvironment) ----
+   For every name x, every kind of class, every well-formed state and every balanced body that says nothing about x (does not
+   define it and opens no object with a class-local macro x), the state after \end{x} is the state before \begin{x} up to the
+   global effect of the body (and the definition of x as unrecognized, if it was unknown): all conclusions of C04_balanced_restores. *)
+Theorem C04_env_is_group :
+  forall (s : state) (x : name) (ck : ckind) (i1 i2 : N) (nm : list N) (locs : list (name * value)) (body : list op) (e1 : senv),
+    wf s -> find x locs = None ->
+    let sg := fst (getitem x s) in
+    let o := env_obj ck (snd (getitem x s)) i1 nm locs in
+    Sem (kind_of o) body (enter o (abs sg)) e1 ->
+    forallb (quiet x) body = true ->
+    let s' := end_env x ck i2 nm (run body (begin_env x ck i1 nm locs s)) in
+    wf s' /\ ups s' = ups s /\ cur s' = cur s /\ (exists ext, heap s' = heap s ++ ext) /\
+    bottom s' = set_lets (set_macros (bottom sg) (glo_m e1)) (glo_l e1) /\ m_cells s' = s_cells e1 /\
+    abs s' = leave (abs sg) e1.
+Proof. exact env_is_group. Qed.
+Print Assumptions C04_env_is_group.
+
+Example C04_env_is_group_nonvacuous :
+  (* {\def\a{B}\begin{sloppypar}\def\a{C}\catcode`\@=11 \a\end{sloppypar}\a}: an unknown / Command-class name (CMacro) *)
+  let s := run [Push None; AddLocal 0 (VDef 1)] init_state in
+  let body := [AddLocal 0 (VDef 2); Catcode 64 11; Getitem 0] in
+  (exists e1, Sem InObj body (enter (env_obj CMacro (snd (getitem 50 s)) 7 [115] []) (abs (fst (getitem 50 s)))) e1) /\
+  forallb (quiet 50) body = true /\
+  (let s1 := run body (begin_env 50 CMacro 7 [115] [] s) in depth s1 = 3%nat /\ lookup s1 0 = Some (VDef 2) /\ which s1 64 = 11) /\
+  (let s' := end_env 50 CMacro 8 [115] (run body (begin_env 50 CMacro 7 [115] [] s)) in
+   depth s' = 2%nat /\ lookup s' 0 = Some (VDef 1) /\ which s' 64 = 12 /\ lookup s' 50 = Some (VUnrec 50)) /\
+  (* the three kinds of class issue a group each *)
+  (forall ck, depth (end_env 50 ck 8 [115] (begin_env 50 ck 7 [115] [] s)) = depth s).
+Proof.
+  split; [|vm_compute; repeat split; intros []; reflexivity].
+  eexists. repeat (eapply S_simple; [reflexivity|]). apply S_nil.
+Qed.
+
+(* ---- reachable states: the well-formedness premise of M2 discharged (every state Context() can reach by any history) ---- *)
+Theorem C04_reachable_restores :
+  forall (s : state) (o p : option objinfo) (b : list op) (e1 : senv),
+    reachable s -> brackets o p = true -> Sem (kind_of o) b (enter o (abs s)) e1 ->
+    let s' := run (Push o :: b ++ [Pop p]) s in
+    reachable s' /\ ups s' = ups s /\ cur s' = cur s /\ (exists ext, heap s' = heap s ++ ext) /\
+    bottom s' = set_lets (set_macros (bottom s) (glo_m e1)) (glo_l e1) /\ m_cells s' = s_cells e1 /\
+    (forall c, which s' c = which s c).
+Proof. exact reachable_restores. Qed.
+Print Assumptions C04_reachable_restores.
+
+(* from Context(): the table in force is C01's grouped table started from the default table (the form C01's driver runs) *)
+Theorem C04_which_is_gops_init :
+  forall (h : list op) (c : N),
+    forallb gop_ok h = true ->
+    which (run h init_state) c = which_code (apply_gops [] default_table (gtrace h init_state)) c.
+Proof. exact which_is_gops_init. Qed.
+
+(* ---- the histories of the other grouping constructs are balanced, so M2 / M3 / M4 apply to them ----
+   \cmd{body} = push(cmd); sub-process: push(ArgumentContext); body; pop(same); pop(cmd)  (closed by identity);
+   tabular = push(table); push() first cell; [& or \\ = pop(); push()] next cell ...; \end{tabular} = pop(obj) closing the last cell too *)
+Theorem C04_cmd_hist_balanced :
+  forall (K : kind) (o a : objinfo) (body rest : list op),
+    odoc o = false -> odoc a = false -> Bal InObj body -> Bal K rest -> Bal K (cmd_hist o a body ++ rest).
+Proof. exact cmd_hist_balanced. Qed.
+
+Theorem C04_tabular_hist_balanced :
+  forall (K : kind) (tb te : objinfo) (first : list op) (cells : list (list op)) (rest : list op),
+    odoc tb = false -> closes tb te = true -> Bal Strict first -> Forall (Bal Strict) cells -> Bal K rest ->
+    Bal K (tabular_hist tb te first cells ++ rest).
+Proof. exact tabular_hist_balanced. Qed.
+
+Example C04_constructs_nonvacuous :
+  (* \begin{tabular} \def\a & {\catcode} \\ \gdef \end{tabular}  and  \textbf{\def\a ... {  (argument closed over an open brace) *)
+  let t := tabular_hist envB envE [AddLocal 0 (VDef 1)] [[Push None; Catcode 64 11; Pop None]; [AddGlobal 1 (VDef 2)]] in
+  let c := cmd_hist envB envE [AddLocal 0 (VDef 1); Push None; Catcode 64 11] in
+  Balanced (t ++ []) /\ depth (run t init_state) = 1%nat /\ lookup (run t init_state) 1 = Some (VDef 2) /\
+  lookup (run t init_state) 0 = None /\
+  Balanced (c ++ []) /\ depth (run c init_state) = 1%nat /\ which (run c init_state) 64 = 12.
+Proof.
+  cbv zeta. split; [|split; [reflexivity|split; [reflexivity|split; [reflexivity|split; [|split; reflexivity]]]]].
+  - apply tabular_hist_balanced; [reflexivity|reflexivity| | |apply Bal_nil].
+    + apply Bal_simple; [reflexivity|apply Bal_nil].
+    + apply Forall_cons; [|apply Forall_cons; [|apply Forall_nil]].
+      * apply (Bal_group Strict [Catcode 64 11] []); [apply Bal_simple; [reflexivity|apply Bal_nil]|apply Bal_nil].
+      * apply Bal_simple; [reflexivity|apply Bal_nil].
+  - apply cmd_hist_balanced; [reflexivity|reflexivity| |apply Bal_nil].
+    apply Bal_simple; [reflexivity|]. apply Bal_open_anon. apply Bal_simple; [reflexivity|apply Bal_nil].
+Qed.
